@@ -31,7 +31,7 @@ ASSUMPTIONS = [
 CMDS = ["phase", "phase_ped", "phase_hp_lists", "genotype", "genotype_ped", "polyphase", "haplotag", "haplotagphase",
         "unphase", "stats", "compare", "split", "find_snv_candidates", "polyphase_pre", "polyphase_pre2", "polyphase_pre3",
         # option variants (the result must depend on files and options only, whatever the options are)
-        "split_largest", "compare_multi", "stats_gtf", "phase_distrust", "haplotag_regions", "find_snv_multi", "phase_lists_chr2", "stats_chroms_gz"]
+        "split_largest", "compare_multi", "stats_gtf", "phase_distrust", "haplotag_regions", "find_snv_multi", "phase_lists_chr2", "stats_chroms_gz", "genotype_ped_cov"]
 
 
 def design_mc(ctx):
@@ -266,6 +266,8 @@ def drive(sc):
                 "phase_distrust": (["phase", "--reference", paths["ref"], "-o", "{out}/out.vcf", "--distrust-genotypes", "--include-homozygous",
                                     "--changed-genotype-list", "{out}/gt.tsv", "--output-read-list", "{out}/reads.tsv",
                                     paths["vcf"], paths["bam"]], ["out.vcf", "gt.tsv", "reads.tsv"]),
+                "genotype_ped_cov": (["genotype", "--reference", paths["ref"], "-o", "{out}/out.vcf", "--ped", paths["ped"],
+                                      "--max-coverage", "4", paths["vcf"], paths["bam"]], ["out.vcf"]),
                 "stats_chroms_gz": (["stats", "--tsv", "{out}/s.tsv", "--block-list", "{out}/b.tsv", "--gtf", "{out}/b.gtf",
                                      "--chromosome", paths["names"][-1], "--chromosome", paths["names"][0], "--sample", names[1],
                                      os.path.join(d, "phased_copy.vcf.gz")], ["s.tsv", "b.tsv", "b.gtf", "stdout"]),
